@@ -233,6 +233,34 @@ def script : Class → AnnMap → LuaStep → Option AnnMap
   | .higress => higressLua
   | .mse => mseLua
 
+/-! ### which inputs a script accepts (anything else is a Lua error, `EnsureRoutes` returns it) -/
+
+def hasHeaders (m : HttpMatch) : Bool := !m.headers.isEmpty
+
+/-- aliyun-alb.lua and higress.lua read `match.headers[1]` of every match -/
+def allHaveHeaders (s : LuaStep) : Bool :=
+  match s.mts with
+  | none => true
+  | some ms => ms.all hasHeaders
+
+/-- mse.lua iterates `requestHeaderModifier.set`, which is absent when the list is empty -/
+def rhmOk (s : LuaStep) : Bool :=
+  match s.rhm with
+  | some [] => false
+  | _ => true
+
+/-- the steps (match kinds) the class's script supports -/
+def supported : Class → LuaStep → Bool
+  | .nginx, _ => true
+  | .alb, s => allHaveHeaders s
+  | .higress, s => allHaveHeaders s
+  | .mse, s => rhmOk s
+
+/-- mse.lua needs an Ingress that has annotations (`annotations = obj.annotations`) -/
+def annOk : Class → AnnMap → Bool
+  | .mse, a => !a.isEmpty
+  | _, _ => true
+
 /-- `executeLuaForCanary`: `weight == nil` is passed as `"-1"`; `Weight: fmt.Sprintf("%d", *weight)` -/
 def executeLua (cls : Class) (a : AnnMap) (weight : Option Int) (mts : Option (List HttpMatch))
     (rhm : Option (List HeaderKV)) : Option AnnMap :=
